@@ -237,7 +237,7 @@ def main():
         with open(a.replay) as fh:
             print(json.dumps(json.load(fh), indent=1))
     # a foreign checkout (self-test of the machinery) never rewrites the committed evidence
-    sys.exit(run_property(a.pid, a.tier, a.root, write_evidence=a.root is None))
+    sys.exit(run_property(a.pid, a.tier, a.root, write_evidence=a.root is None and not os.environ.get("ECHO_VERIF_NO_EVIDENCE")))
 
 
 if __name__ == "__main__":
